@@ -170,6 +170,14 @@ ScopeShapes(body) ==
       <<For(EV(Id("l")), "x", "y", "", <<Elem("v", <<>>, body)>>), Elem("after", <<>>, body)>>,
       <<Elem("before", <<>>, body), For(EV(Id("l")), "x", "y", "", <<>>), Elem("after", <<>>, body)>>,
       <<For(EV(Arr(<<Item(Id("x")), Item(Id("item"))>>)), "x", "item", "", body)>>,
+      (* a scope-introducing element WITHOUT children, followed by another one under other names: nothing of the first may
+         stay behind (in the parser's scope stack, or in the printer's) *)
+      <<For(EV(Id("l")), "x", "y", "", <<>>), For(EV(Id("l2")), "item", "index", "", body)>>,
+      <<For(EV(Id("l")), "item", "index", "", <<>>), For(EV(Id("l2")), "y", "x", "", body), Elem("after", <<>>, body)>>,
+      <<Elem("dyn-c", <<Attr("plain", "sv-x", SV("Sx")), Attr("plain", "sv-item", SV("Sitem"))>>,
+             <<Elem("c", <<Attr("slot:", "x", None)>>, <<>>),
+               Elem("d", <<Attr("slot:", "item", SV("y"))>>, body)>>),
+        For(EV(Id("l")), "item", "index", "", body)>>,
       <<Elem("dyn-c", <<Attr("plain", "sv-x", SV("Sx")), Attr("plain", "sv-item", SV("Sitem"))>>,
              <<Elem("c", <<Attr("slot:", "x", None), Attr("plain", "p", EV(Id("x")))>>, body),
                Elem("d", <<Attr("slot:", "item", SV("y"))>>, body),
